@@ -31,9 +31,9 @@ MATRIX_ROUTE = {("quso", "QUSOMatrix"), ("qubo", "QUBOMatrix"), ("puso", "QUSOMa
 ORACLES = {
     "C11": {"wrong_count", "wrong_keys", "bad_state_value", "wrong_spin_flag", "value_mismatch", "best_wrong",
             "argument_mutated", "unexpected_exception", "not_annealresults"},
-    "C12": {"not_reproducible", "zero_temperature_increase", "refinement_mismatch", "distribution_mismatch",
+    "C12": {"not_reproducible", "schedule_number_type_changes_result", "zero_temperature_increase", "refinement_mismatch", "distribution_mismatch",
             "impossible_state_reached", "unexpected_exception"},
-    "C17": {"heap_overflow", "bad_free", "heap_leak", "bad_state_value", "nonfinite_value", "rand_int_bad_bound", "rand_int_out_of_range",
+    "C17": {"heap_overflow", "bad_free", "heap_leak", "bad_state_value", "nonfinite_value", "rand_int_bad_bound", "rand_int_out_of_range", "schedule_number_type_changes_result",
             "absurd_allocation"},      # a Python-level exception is C11's business, not a memory-safety violation
 }
 
@@ -386,7 +386,13 @@ class World(BaseWorld):
                 of = best
             else:
                 of = rng.randrange(len(self.calls))
-            return {"op": "repeat", "of": of, "clock": [rng.choice([0, 5, -1, 10**9, 2**32 + 7, rng.randrange(2**31)])]}
+            rop = {"op": "repeat", "of": of, "clock": [rng.choice([0, 5, -1, 10**9, 2**32 + 7, rng.randrange(2**31)])]}
+            if isinstance(self.calls[of].get("schedule"), list) and self.calls[of].get("seed") is not None and rng.random() < 0.35:
+                rop["variant"] = "float_schedule"
+                rop["clock"] = self.calls[of].get("clock", [0])
+            return rop
+        if getattr(self, "live_desc", None) is not None and getattr(self, "last_live_op", None) is not None and rng.random() < 0.2:
+            return {"op": "relive"}
         if getattr(self, "live_desc", None) is not None and rng.random() < 0.6:
             op = self.gen_live_edit(rng)
             if op is not None:
@@ -661,6 +667,8 @@ class World(BaseWorld):
             return self.apply_dist(op)
         if kind == "huge":
             return self.apply_huge(op)
+        if kind == "relive":
+            return self.apply_relive(op)
         raise HarnessError("unknown op " + kind)
 
     def note_shape(self, op, poly, reported):
@@ -718,6 +726,7 @@ class World(BaseWorld):
             self.probe("unreplayable_unseeded_calls")
             digest = ["unseeded", len(digest) if isinstance(digest, list) else 0]
         if record and (op["model"].get("keep") or op["model"].get("live")):
+            self.last_live_op = (dict(op), digest)
             self.live_desc = (op["fn"], {k: v for k, v in op["model"].items() if k not in ("keep", "live", "new_edits")})
         if record:
             rec = dict(op)
@@ -740,6 +749,18 @@ class World(BaseWorld):
         of = op["of"] % len(self.calls)
         orig = {k: v for k, v in self.calls[of].items() if not k.startswith("_")}
         orig["model"] = {k: v for k, v in orig["model"].items() if k not in ("keep", "live", "new_edits")}
+        variant = op.get("variant")
+        if variant == "float_schedule" and isinstance(orig.get("schedule"), list):
+            # metamorphic twin: the same temperatures written as Python floats instead of ints (or the other way round where the
+            # value is integral).  The numbers are equal, so a seeded call must return the same results; a difference means the
+            # extension read the objects' bytes instead of their values (type confusion).
+            sched = orig["schedule"]
+            twin = [float(t) if isinstance(t, int) else (int(t) if (isinstance(t, float) and math.isfinite(t) and t == int(t) and abs(t) < 1e9) else t) for t in sched]
+            if [type(t) for t in twin] == [type(t) for t in sched]:
+                variant = None
+            else:
+                orig["schedule"] = twin
+                self.fault("schedule_number_types_swapped")
         immediate = of == len(self.calls) - 1 and getattr(self, "last", (None,))[0] is not None and self.last[0].get("op") == "anneal"
         self.fault("history_repeat")
         if orig.get("clock") != op.get("clock"):
@@ -752,6 +773,11 @@ class World(BaseWorld):
         passthrough = orig.get("rng", {}).get("mode", "pass") == "pass"
         if orig.get("rng", {}).get("mode") == "raw":
             passthrough = seeded      # fully determined by (seed, raw script)
+        if variant == "float_schedule":
+            if (seeded and passthrough) and digest != want:
+                self.fail("schedule_number_type_changes_result", "the same call with the schedule's temperatures written as %r instead of %r (equal numbers, "
+                          "other Python number types) returned different results: %s vs %s" % (orig["schedule"], self.calls[of].get("schedule"), str(want)[:200], str(digest)[:200]))
+            return ["repeat-float-schedule", of, ev]
         if seeded and passthrough:
             self.probe("seeded_twin_calls")
             if digest != want:
@@ -762,6 +788,23 @@ class World(BaseWorld):
             if digest != want and "not_reproducible" in self.active:
                 self.fail("not_reproducible", "identical calls under an identical scripted random stream differ")
         return ["repeat", of, ev]
+
+    def apply_relive(self, op):
+        """The very same call again on the very same live model OBJECT (no edit in between): identical results when seeded."""
+        last = getattr(self, "last_live_op", None)
+        if last is None or getattr(self, "live_obj", None) is None:
+            return ["relive", "none"]
+        again = dict(last[0])
+        again["model"] = dict(again["model"], live=True, new_edits=[])
+        again["model"].pop("keep", None)
+        self.fault("same_object_annealed_again")
+        ev = self.apply_anneal(again, record=False)
+        digest, want = ev[3], last[1]
+        seeded = again.get("seed") is not None and again["seed"] >= 0
+        if seeded and again.get("rng", {}).get("mode", "pass") == "pass" and digest != want:
+            self.fail("not_reproducible", "the same seeded call on the same model object returned different results the second time: %s vs %s" %
+                      (str(want)[:250], str(digest)[:250]))
+        return ["relive", ev]
 
     def apply_huge(self, op):
         """A very large sparse model, optionally from a worker thread with a small stack (a resource fault): buffers sized
